@@ -4,6 +4,7 @@
 //! `linfa_clustering::GaussianMixtureModel` and judges the model (weights, means, covariances,
 //! precisions) and `predict_proba` / `predict` against reference code of its own.
 
+pub mod batch;
 pub mod data;
 pub mod oracle;
 
@@ -85,6 +86,24 @@ fn case_strategy(tier: Tier) -> impl Strategy<Value = Case> {
     )
 }
 
+fn big_batch_strategy(tier: Tier) -> impl Strategy<Value = batch::BigCase> {
+    (
+        case_strategy(tier),
+        2usize..=4,
+        0u8..batch::BATCH_M.len() as u8,
+        0u8..batch::SMALL.len() as u8,
+        any::<u64>(),
+    )
+        .prop_map(|(mut base, k, m_idx, small_idx, batch_seed)| {
+            // the stratum is about prediction: give the fit every chance, >= 2 components so labels differ
+            base.n_clusters = k;
+            base.max_iter = 500;
+            base.n_runs = 1;
+            base.queries = vec![];
+            batch::BigCase { base, m_idx, small_idx, batch_seed }
+        })
+}
+
 /// Deterministic grid: every far level, from every generating component and from the whole data
 /// set, along an axis and along a diagonal, for a fixed family of data sets and every
 /// (n_clusters, init, reg_covar) combination.
@@ -154,6 +173,8 @@ pub fn property() -> Property {
                tolerance {1e-3,1e-5}, n_runs 1..=3, max_n_iterations {1,100,500}), 4..=12 queries (training rows, box-uniform, \
                generating centre + s*sigma_max*u, data centroid + s*(radius+sqrt(reg))*u, s in {10,40,100,1e3,1e6}); plus a deterministic grid \
                (dims x layout x n_clusters x init x reg_covar) that asks every far level from every component. \
+plus a large-batch stratum (big_batch: same data/configuration generator with n_clusters 2..=4; ONE predict / predict_proba call on m in {255,256,257,300,513,900,1025} rows derived from a generated u64: \
+               50% repeated training rows, box-uniform, fresh points around generating centres, far points; non-trivial there = m > 256 and >= 2 distinct predicted components). \
                Non-trivial = fit succeeded with >= 2 components and >= 1 query at least 40 standard deviations (Mahalanobis, fitted model) from every component; \
                distinct = distinct canonical JSON of the case. Fits that return Err are counted as not judged (except max_n_iterations = 1, where Err is the required outcome)",
         assumptions: vec![
@@ -170,11 +191,19 @@ pub fn property() -> Property {
             "rows whose largest reference weighted log-density is below -700 are the exp-underflow domain of a log-sum-exp without max-shift; failures there carry their own signatures (proba:far-underflow-*, predict:far-underflow-*)".into(),
             "max_n_iterations = 1 can never satisfy the stopping rule (first lower-bound change is infinite), so Ok(model) there is a violation; every other Err is accepted without judging whether it was necessary".into(),
             "a panic inside fit / predict / predict_proba on generated (finite, n >= n_clusters) input is a violation".into(),
+            "big_batch: every row of the single large call is judged by the same per-row oracle; additionally the same rows are predicted in batches of {1,7,64,100,250}: labels must agree unless the reference \
+             log-posterior margin between the two answers is within 1e-6 + 1e-12 (cond_a (maha2_a+p) + cond_b (maha2_b+p)); probabilities must agree within 1e-12 (row-wise arithmetic does not depend on the batch)".into(),
             "trusted base: ndarray, the harness' naive Cholesky / Jacobi / matmul (vengine::num)".into(),
         ],
         subs: vec![
             prop_sub("fit_predict", 24000, 300000, case_strategy, oracle::check).chunks(16).require(&["fit_ok", "has_query_ge_40sd"]),
             enum_sub("far_grid", far_grid, oracle::check).chunks(8),
+            prop_sub("big_batch", 560, 14000, big_batch_strategy, batch::check)
+                .chunks(8)
+                .require(&[
+                    "batch_255", "batch_256", "batch_257", "batch_300", "batch_513", "batch_900", "batch_1025",
+                    "batch_has_2_or_more_labels",
+                ]),
         ],
     }
 }
